@@ -344,16 +344,18 @@ def run(ctx):
 
     # ---- one case: a real save in a fresh directory --------------------------------------------------------------
     pool = {}                    # quick tier: a loaded scenario is reused while no save attempt got as far as mutating it
-    pool_stats = {"loads": 0, "reused": 0}
+    pool_stats = {"loads": 0, "reused": 0, "redone_fresh": 0}
 
-    def run_case(cfg, tag):
+    def run_case(cfg, tag, fresh=False):
         """cfg: allow, sv, sr, dest in DEST_STATES, ncb (callbacks), fault (event index | None), natural (list | None), map"""
         seq[0] += 1
         nat = cfg.get("natural")
         pkey = (cfg.get("map", 4), cfg.get("ncb", 0))
         poolable = ctx.quick and not ctx.replay and not nat
         scn = None
-        if poolable and pkey in pool:
+        reused = False
+        if poolable and not fresh and pkey in pool:
+            reused = True
             d, scn = pool.pop(pkey)
             for n in os.listdir(d):
                 q = os.path.join(d, n)
@@ -399,12 +401,15 @@ def run(ctx):
             settings.ALLOW_OVERWRITING_SOURCE = bool(cfg["allow"])
             settings.ENABLE_XS_CHECK_INTEGRATION = bool(nat and nat[0] == "xs")
             tracer.reset(fault_at=cfg.get("fault"))
+            cwd = os.getcwd()
+            os.chdir(d)              # a stray relative-path write (error dump, temp file) lands inside the observed directory
             tracer.active = True
             try:
                 st, exc = quietly(common.outcome, scn.write_to_file, dest, skip_reconstruction=bool(cfg["sr"]),
                                   skip_validation=bool(cfg["sv"]))
             finally:
                 tracer.active = False
+                os.chdir(cwd)
                 settings.ALLOW_OVERWRITING_SOURCE = saved_settings[0]
                 settings.ENABLE_XS_CHECK_INTEGRATION = False
             post = snapshot(d)
@@ -416,6 +421,11 @@ def run(ctx):
                 pool[pkey] = (d, scn)
             else:
                 shutil.rmtree(d, ignore_errors=True)
+        if reused and st == "ok":
+            # a second commit of one object consumes a unit id (`next_unit_id_to_place`), so the bytes of a successful
+            # save are only comparable with the reference on a freshly loaded scenario: redo this case from scratch
+            pool_stats["redone_fresh"] += 1
+            return run_case(cfg, tag, fresh=True)
         rd, rs = os.path.relpath(dest, d), "src.aoe2scenario"
         rest_same = all(pre.get(k) == post.get(k) for k in set(pre) | set(post) if k not in (rd, rs))
         obs = (f"{st} dest={classify(pre.get(rd), post.get(rd), ref)} src={classify(pre.get(rs), post.get(rs), ref)} "
@@ -426,7 +436,7 @@ def run(ctx):
                "fired": tracer.fired, "first_exc_idx": tracer.first_exc_idx, "n_events": len(ev), "open_idx": open_idx,
                "rl": tracer.run_lengths(), "after_open": tracer.after_open(), "fs_steps": tracer.fs_steps(),
                "open_paths": list(tracer.open_paths), "dest_path_ok": all(p == dest for p in tracer.open_paths),
-               "counts": {k: tracer.count(k) for k in KIND_ORDER}, "tag": tag,
+               "counts": {k: tracer.count(k) for k in KIND_ORDER}, "tag": tag, "kinds": [k for k, _ in ev],
                "new_files": sorted(set(post) - set(pre)), "changed": sorted(k for k in pre if post.get(k) != pre[k]),
                "fault_kind": ev[cfg["fault"]][0] if (tracer.fired and cfg.get("fault") is not None) else None}
         judge(res)
@@ -441,12 +451,13 @@ def run(ctx):
             return "injected"
         return "none"
 
+    sig_count = {}
+
     def judge(res):
         cfg, obs, st = res["cfg"], res["obs"], res["outcome"]
         fl = fault_label(res)
         faulted = fl != "none"
-        post_open = (cfg.get("fault") is not None and res["fired"] and res["open_idx"] is not None
-                     and cfg["fault"] > res["open_idx"])
+        post_open = res["fired"] and res.get("fault_kind") in POST_OPEN_OK     # failure inside the final f.write / close
         sig0 = {"dest": cfg["dest"], "allow": bool(cfg["allow"]), "skip_validation": bool(cfg["sv"]),
                 "skip_reconstruction": bool(cfg["sr"]), "fault": fl, "fault_kind": res.get("fault_kind"),
                 "observed": obs}
@@ -481,7 +492,11 @@ def run(ctx):
             if not good:
                 bad.append(("success_writes_dest", f"the save returned but the files are `{obs}` (new={res['new_files']} changed={res['changed']})"))
         for clause, what in bad:
-            R.violation({"clause": clause, **sig0}, what, replay)
+            sig = {"clause": clause, **sig0}
+            sk = tuple(sorted((k, str(v)) for k, v in sig.items()))
+            sig_count[sk] = sig_count.get(sk, 0) + 1
+            if sig_count[sk] <= 2:            # the same kind of failure is recorded twice at most (the list is capped)
+                R.violation(sig, what, replay)
         res["violated"] = [c for c, _ in bad]
 
     # ---- model queries --------------------------------------------------------------------------------------------
@@ -556,6 +571,8 @@ def run(ctx):
             rl = " ".join(f"{k}:{n}" for k, n in res["rl"])
             n_fallible = sum(n for k, n in res["rl"])
             impl = f"{rl} n={n_fallible} fs_steps={res['fs_steps']} after_open={res['after_open']}"
+            if res["outcome"] != "ok":
+                impl = "error " + impl
             trace_cmds.append(f"pipeline sv={int(sv)} sr={int(sr)} cbs={ncb} commits={c['commit']} sers={c['serialise']}")
             trace_expect.append(impl)
             trace_meta.append({"map": mp, "sv": sv, "sr": sr, "ncb": ncb, "dest_only": res["dest_path_ok"], "opens": res["open_paths"][:3]})
@@ -597,13 +614,16 @@ def run(ctx):
             for sv in (False, True):
                 ncb = 1
                 tr = run_case(mk(False, sv, "absent", ncb=ncb, mp=mp), "trace")
-                n_ev = tr["n_events"]                      # includes the write/close sub-events after the open
-                last = tr["open_idx"] if tr["open_idx"] is not None else n_ev - 1
                 bounds = set(kind_bounds(tr))
-                for k in range(0, n_ev):
-                    if k > last + 1:
-                        break                              # one post-open point (the write) is enough, it is informational
-                    if full_product and mp == 4:
+                informational = False
+                for k, kind in enumerate(tr["kinds"]):
+                    if kind in POST_OPEN_OK:
+                        # a failure inside the final write/close is outside the property and the model: one point, recorded only
+                        if informational:
+                            continue
+                        informational = True
+                        combos = [(False, "present")]
+                    elif full_product and mp == 4:
                         combos = [(a, d) for a in (False, True) for d in DEST_STATES]
                     elif k in bounds:
                         combos = [(a, d) for a in (False, True) for d in DEST_STATES]
@@ -617,7 +637,9 @@ def run(ctx):
                         queue(run_case(mk(a, sv, d, ncb=ncb, fault=k, mp=mp), "inject"))
         # skip_reconstruction: every index once (quick: every 3rd), destination states rotating
         tr = run_case(mk(False, False, "absent", sr=True, ncb=1), "trace")
-        for k in range(0, (tr["open_idx"] or 0) + 1, 3 if ctx.quick else 1):
+        for k in range(0, len(tr["kinds"]), 3 if ctx.quick else 1):
+            if tr["kinds"][k] in POST_OPEN_OK:
+                continue
             queue(run_case(mk((k // 3) % 2 == 1, False, DEST_STATES[k % 3], sr=True, ncb=1, fault=k), "inject-sr"))
 
         # ---- (2c) natural faults ------------------------------------------------------------------------------------
@@ -644,6 +666,10 @@ def run(ctx):
                 nat = ["callback", rng.randrange(ncb)]
             queue(run_case(mk(a, sv, d, ncb=ncb, fault=rng.choice([None, rng.randrange(0, 960)]), natural=nat), "mixed"))
         R.extra["scenario_loads"] = dict(pool_stats)
+        R.extra["violating_cases_by_clause"] = {}
+        for sk, n in sig_count.items():
+            cl = dict(sk)["clause"]
+            R.extra["violating_cases_by_clause"][cl] = R.extra["violating_cases_by_clause"].get(cl, 0) + n
     finally:
         tracer.active = False
         tracer.uninstall()
@@ -657,12 +683,27 @@ def run(ctx):
         return R.to_json(exhaustive=True)
     out = drv.batch(trace_cmds + cmds)
     t_out, c_out = out[:len(trace_cmds)], out[len(trace_cmds):]
+    def abstraction(line):
+        """what the property depends on (DESIGN 2.4): which kinds of step occur how often, how many touch the filesystem,
+        what can still fail after the first of those, and that the run ends with the open – NOT the relative order of the
+        fallible steps among themselves"""
+        ws = line.split()
+        kinds = sorted(w for w in ws if ":" in w)
+        tail = [w for w in ws if "=" in w]
+        last = [w for w in ws if ":" in w][-1:] if ws else []
+        return (tuple(kinds), tuple(tail), tuple(last), ws[0] == "error")
+
+    order_same = 0
     for cmd, o, x, m in zip(trace_cmds, t_out, trace_expect, trace_meta):
-        if o != x:
-            R.mismatch("event trace of a real save and the model's pipeline differ in their order classes / in what "
-                       "can still fail after the destination is opened", {"op": "trace", **m, "cmd": cmd}, impl=x, model=o)
+        if o == x:
+            order_same += 1
+        if abstraction(o) != abstraction(x):
+            R.mismatch("event trace of a real save and the model's pipeline differ in what can still fail after the "
+                       "destination is opened / in the kinds of step", {"op": "trace", **m, "cmd": cmd}, impl=x, model=o)
         else:
             R.traces += 1
+    R.extra["event_traces"] = {"compared": len(trace_cmds), "same_order_classes_as_model": order_same,
+                               "example": trace_expect[0] if trace_expect else None}
     fixed = [c_out[2 * i] for i in range(len(pend))]
     pinned = [c_out[2 * i + 1] for i in range(len(pend))]
     agree_fixed = sum(1 for r, o in zip(pend, fixed) if r["obs"] == o)
@@ -674,6 +715,11 @@ def run(ctx):
         polarity, model = "pinned", pinned
     else:
         polarity, model = "fixed", fixed
+        bad = [i for i in sensitive if pend[i]["obs"] != fixed[i]][:1] + [i for i in sensitive if pend[i]["obs"] != pinned[i]][:1]
+        R.mismatch("the overwrite guard of the implementation behaves like neither polarity of the model",
+                   {"op": "case", "cfg": pend[bad[0]]["cfg"], "also": pend[bad[-1]]["cfg"]},
+                   impl=" / ".join(pend[i]["obs"] for i in bad), model="fixed: " + " / ".join(fixed[i] for i in bad)
+                   + " ; pinned: " + " / ".join(pinned[i] for i in bad))
     R.extra["guard_polarity_of_implementation"] = polarity
     R.extra["polarity_sensitive_cases"] = len(sensitive)
     R.extra["agree"] = {"fixed": agree_fixed, "pinned": agree_pinned, "cases": len(pend)}
